@@ -548,6 +548,9 @@ func (h *harness) pathStream(nHist int) {
 		scope.Let(slip.Symbol("pth"), nil)
 		nOps := 1 + ctx.Rng.Intn(6)
 		for step := 0; step < nOps; step++ {
+			if tooDeep(inst.Any, 0) {
+				break // reported when it arose
+			}
 			pre := deepCopy(inst.Any)
 			preTerm, preOK := jvTerm(pre)
 			if !preOK {
@@ -695,6 +698,10 @@ func (h *harness) pathStream(nHist int) {
 				ctx.Hist("op:walk")
 			}
 			out := common.EvalTimeout(scope, lisp, 5*time.Second)
+			if tooDeep(inst.Any, 0) {
+				ctx.Violate("a bag operation left the bag containing itself (a cycle)", stepRec{Lisp: lisp, Value: valShown, Before: show(pre)}, "cyclic contents", "JSON data")
+				break
+			}
 			post := deepCopy(inst.Any)
 			postTerm, postOK := jvTerm(post)
 			rec := stepRec{Lisp: lisp, Value: valShown, Before: show(pre), After: show(post)}
